@@ -672,7 +672,34 @@ class Interp:
                     env.vars.pop(t.id, None)
         elif isinstance(s, ast.Nonlocal):
             env.nonlocals = set(getattr(env, "nonlocals", ())) | set(s.names)
-        elif isinstance(s, (ast.Pass, ast.Import, ast.ImportFrom, ast.Global, ast.ClassDef, ast.Assert)):
+        elif isinstance(s, (ast.Import, ast.ImportFrom)):
+            # an import inside a function binds local names (a dependency imported where it is used)
+            mod = env.module
+            for a in s.names:
+                if isinstance(s, ast.Import):
+                    local = a.asname or a.name.split(".")[0]
+                    dotted = a.name if a.asname else a.name.split(".")[0]
+                else:
+                    if a.name == "*":
+                        continue
+                    base = s.module or ""
+                    if s.level and mod is not None:
+                        parts = mod.name.split(".")
+                        base = ".".join(parts[: len(parts) - s.level + (1 if mod.path.endswith("__init__.py") else 0)] + ([base] if base else []))
+                    local, dotted = a.asname or a.name, f"{base}.{a.name}"
+                q = self.P.canonical(dotted)
+                if q in self.P.functions:
+                    env.set(local, FuncV(self.P.functions[q], None))
+                elif q in self.P.classes:
+                    env.set(local, ClassV(self.P.classes[q]))
+                else:
+                    mname_, _, attr_ = dotted.rpartition(".")
+                    src_ = self.P.modules.get(mname_)
+                    if src_ is not None and attr_ and (attr_ in src_.constants or attr_ in src_.rebinds or attr_ in src_.imports):
+                        env.set(local, self._global(attr_, src_))
+                    else:
+                        env.set(local, ExtV(q))
+        elif isinstance(s, (ast.Pass, ast.Global, ast.ClassDef, ast.Assert)):
             return
         elif isinstance(s, ast.Break):
             raise _Break()
